@@ -21,6 +21,12 @@ package smtp_downstream
 //@   ensures result != nil ==> d.rcpts == old(d.rcpts)
 // The per-recipient callback: the k-th reply of the next hop is reported under the k-th recorded address (the
 // address AddRcpt was given, not the wire form go-smtp passes in).
+// Commit ends the transaction with the next hop, which has already accepted the message: its only error is the socket's.
+//@ func (*delivery).Commit
+//@   prop C01
+//@   requires d != nil && d.conn != nil
+//@   modifies *d.conn, *d.conn.cl, gSockErr, gosmtp.SMTPError.Code, gosmtp.SMTPError.EnhancedCode
+//@   ensures result == nil || result == gSockErr
 //@ func (*lmtpDelivery).BodyNonAtomic$1
 //@   prop C09 C01
 //@   requires d != nil && d.delivery != nil && sc != nil && 0 <= rcptIndx && rcptIndx < 4611686018427387904
